@@ -187,8 +187,14 @@ func noteString(s string, vi *valueInfo) {
 func genObject(t *rapid.T, depth, maxDepth, maxWidth int, vi *valueInfo) map[string]interface{} {
 	n := rapid.IntRange(0, maxWidth).Draw(t, "olen")
 	obj := map[string]interface{}{}
+	hostileNames := rapid.IntRange(0, 3).Draw(t, "hostileNames") == 0
 	for i := 0; i < n; i++ {
 		k := genString(t, 4)
+		if hostileNames {
+			// names whose UTF-16 code-unit order differs from their code-point / UTF-8 byte order, shared prefixes, near-duplicates
+			k = rapid.SampledFrom([]string{"\ue000", "\U00010000", "\uffff", "\ud7ff", "a\U0001f600", "a\uffff", "a\ue000", "a", "", "aa", "a\u0000", "\ufb33", "\U0001f600",
+				"\U0010ffff", "\uff61", "A", "\u00e9", "e\u0301", "\u20ac", "1", "10", "2", "\r", "\n", "\"", "\\"}).Draw(t, "hostileName")
+		}
 		noteString(k, vi)
 		if _, dup := obj[k]; dup {
 			continue
